@@ -589,7 +589,11 @@ class SCCWriter(BaseWriter):
     def _layout_line(caption):
         caption_text = "".join(caption.get_text_nodes())
         inner_lines = caption_text.split("\n")
-        inner_lines_laid_out = [textwrap.fill(x, 32) for x in inner_lines]
+        # Break rows at spaces only: a row break after a hyphen reads back as
+        # two words ("well-" "documented")
+        inner_lines_laid_out = [
+            textwrap.fill(x, 32, break_on_hyphens=False) for x in inner_lines
+        ]
         return "\n".join(inner_lines_laid_out)
 
     @staticmethod
